@@ -231,8 +231,10 @@ Definition is_flush k := match k with KLongjmp | KFlush => true | _ => false end
 Definition kind_of (k : skind) (arg : N) : skd :=
   match k with KSetjmp => SSetjmp arg | KLongjmp => SLongjmp arg | _ => SNormal end.
 
-(* __plthook_entry(ret_addr = loc, child), ARG1 = arg *)
-Definition plthook_entry (s : lst) (k : skind) (child loc arg : N) : lst :=
+(* __plthook_entry(ret_addr = loc, child), ARG1 = arg.  Since fix (plthook: landing pads) a call made while
+   in_exception is set first drops the entries of the frames unwound so far (parent_loc <= ret_addr),
+   exactly as __mcount_entry does. *)
+Definition plthook_push (s : lst) (k : skind) (child loc arg : N) : lst :=
   let e := new_ent s true child loc (kind_of k arg) in
   let m1 := auto_restore (inexc s) (e :: rs s) (upd (m s) loc PRET) in
   let ri := ridx s + 1 in
@@ -251,6 +253,8 @@ Definition plthook_entry (s : lst) (k : skind) (child loc arg : N) : lst :=
          jbs := jbs s; jpc := jpc s; out := o |}
   | _ => {| rs := e1 :: anc1; ridx := ri; inexc := inexc s; m := m1; jbs := jbs s; jpc := jpc s; out := o |}
   end.
+Definition plthook_entry (s0 : lst) (k : skind) (child loc arg : N) : lst :=
+  plthook_push (if inexc s0 then with_exc (rehook_exception s0 loc) false else s0) k child loc arg.
 
 (* __plthook_exit, including the `again` loop for MCOUNT_FL_LONGJMP (restore_jmpbuf_rstack) *)
 Definition plthook_exit (s : lst) : option (lst * val) :=
@@ -419,8 +423,7 @@ Definition expect := option (N * N).
        (never the case in compiled code, where a frame makes all its calls at one stack depth);
      - a traced function entered while in_exception hands a frame address that does not separate
        dropped from live frames (e.g. -mfentry: the word below the slot is not a frame pointer);
-     - PLT calls / tail calls while in_exception; setjmp / longjmp / nested throw while an exception
-       is in flight;
+     - tail calls while in_exception; setjmp / longjmp / nested throw while an exception is in flight;
      - tail-call chains mixing PLT and mcount kinds;
      - _Unwind_RaiseException called through the PLT of the traced module.                         *)
 Definition rstep (st : rstk) (o : op) : option (rstk * expect) :=
@@ -437,6 +440,17 @@ Definition rstep (st : rstk) (o : op) : option (rstk * expect) :=
   | UCall s r =>
       if below_top (frames st) s && valid_ra r then Some (push st s r [], None) else None
   | Plt kd k s r arg =>
+      if below_top (frames st) s && valid_ra r && exc st then
+        (* a library call from a landing pad (e.g. an inlined destructor): like a traced entry, it first drops
+           the frames unwound so far, which must lie at or below its own return slot *)
+        match kd with
+        | KNone | KFlush =>
+            if (extra st =? 0) && forallb (fun x => x <=? s) (stale st)
+            then Some (bump (mk st (fresh st s r [true] :: frames st) true false 1 []), None)
+            else None
+        | _ => None
+        end
+      else
       if below_top (frames st) s && valid_ra r && negb (exc st) then
         match kd with
         | KSetjmp =>
